@@ -158,6 +158,22 @@ def run(M, rep, tier, only=None):
     sset = ctx.member("DataArray", "polynom_coefficients", "setters")
     if sset is not None:
         sp = ctx.paths(sset, "DataArray")
+        # the coefficients are stored as double precision whatever the numbers look like: an element type inferred from the first
+        # value (or kept from an earlier assignment) truncates a later fractional calibration
+        nodbl = None
+        nw = 0
+        for p in sp:
+            for e in p.events:
+                if e.kind == "layer" and e.op == "H5Group.write_data" and ctx.fx.key(e) == "polynom_coefficients":
+                    nw += 1
+                    ts = [a.t for a in e.args[2:]] + [v.t for k_, v in e.kw.items() if k_ in ("dtype", "datatype", "dt")]
+                    if not any(("double" in show(t).lower() or "float64" in show(t).lower()) for t in ts):
+                        nodbl = (p, e)
+        rep.check(R2, "polynom_coefficients/stored as double", nw > 0 and nodbl is None,
+                  "the coefficients are written without the double-precision element type: the layer then infers the type from the "
+                  "first coefficient / keeps the type of the existing data set, and fractional coefficients are truncated" if nodbl else
+                  "required mechanism not found: the setter never writes the coefficients", site=nodbl[1].site if nodbl else sset.file,
+                  detail=describe_path(nodbl[0]) if nodbl else None)
         for val in (None, (), [], (0.0,), (0, 0), (1.0, 2.0), (0.0, 3.0)):
             pname = sset.params[1]
             te = TermEval(lambda t, val=val, pname=pname: val if t == ("param", pname) else (
@@ -204,6 +220,12 @@ def run(M, rep, tier, only=None):
         cells[(bool(coeff), bool(origin))] = calibrated
         if coeff is None and origin is None and calibrated:
             bad4 = (p, "calibration is applied without looking at the coefficients / origin")
+        elif not calibrated and (coeff is not False or origin is not False):
+            # the raw read is the answer only when the array was found to have NO coefficients and NO origin -- whatever values
+            # the coefficients have (an identity polynomial is still a calibration: the result is double precision)
+            bad4 = (p, "a read returns the raw values without having found the coefficients absent and the origin unset (coefficients "
+                    "%s, origin %s on this path): a calibrated array is read back in its stored element type" % (
+                        {None: "not consulted", True: "present", False: "absent"}[coeff], {None: "not consulted", True: "set", False: "unset"}[origin]))
         elif calibrated != want:
             bad4 = (p, "with coefficients %s and origin %s the read is %scalibrated" % (
                 "present" if coeff else "absent", "set" if origin else "unset/zero", "" if calibrated else "not "))
